@@ -7,6 +7,36 @@ ALL = ["C%02d" % i for i in range(1, 20)]
 
 # id -> (category, technique, level text, level note, design ref)
 CHECKS = {
+    "C01": ("model_checking",
+            "explicit-state exploration of the real small-step evaluator over exhaustively enumerated accepted programs, with a reference interpreter as the stuck-state oracle",
+            "Every accepted program of the program space (type-directed programs up to 6/7 nodes and their annotation-omission / `_` variants, single-point perturbations of the smaller ones, all closed annotated terms up to 6/7 nodes, the alias family, the definition-order family with groups of up to 3 definitions) is run with the real evaluator::step one step at a time up to a horizon of 300/3000 steps. Every final state must be a value, or the reference interpreter started from that very state must report a division by zero; any other stuck state is a violation labelled with the reference's reason. Exhaustive over the stated space; programs beyond the horizon are reported as such.",
+            "Trusted: reference interpreter (engine/src/model/interp.rs). Three genuine defects are recorded as known findings with defect-model classifiers (F-ORDER-VALUE, F-HOLE-UNSOLVED, F-HOLE-COPY).",
+            "DESIGN.md 6/C01"),
+    "C02": ("model_checking",
+            "explicit-state exploration of the real evaluator with semantic invariance checked in every visited state against a big-step reference interpreter, plus an exhaustive operand sweep",
+            "All 9 operators and negation on all 361 ordered pairs of 19 boundary integers (beyond 2^64), recursion and mutual recursion for arguments 0..10, Ackermann for small arguments, evaluation-order probes, the terminating examples, every type-directed program and the alias family: the real step relation is followed state by state; in every visited state the reference interpreter (environment-based, big-step, division specified by its identity) started from that state must give the same outcome as from the source program, and the final value must be the prescribed one.",
+            "Trusted: reference interpreter. Function-valued results are compared by kind only.",
+            "DESIGN.md 6/C02"),
+    "C03": ("exploration",
+            "bounded exhaustive enumeration of well-typed programs, all their single-point perturbations and all small annotated terms, judged by an independent NbE type checker",
+            "For every program of the space that the real front end accepts (7.5 M programs in the quick tier: type-directed programs, annotation variants, every single-point perturbation at every subterm position, all closed annotated terms up to 6/7 nodes, the alias family), the elaborated term must be closed and an independent checker for explicitly typed terms (typing rules + lazy normalisation-by-evaluation with fuel) must derive a type convertible with the reported one.",
+            "Trusted: engine/src/model/typing.rs (the standard rules; gram's deliberate choices - type : type, `_` : type, implicit functions not applicable, annotation-blind conversion, no eta - are followed). Fuel exhaustion never yields a verdict. F-HOLE-COPY is a known finding with a defect-model classifier that only fires on programs with holes.",
+            "DESIGN.md 6/C03"),
+    "C04": ("model_checking",
+            "explicit-state exploration of the real evaluator with the reference type checker as a subject-reduction monitor on every visited state",
+            "Over the C01 program space: in each of the first 25 states reached by the real step relation the reference checker must derive the type reported by `gram check`, and the final value must be canonical for that type (int -> literal, bool -> true/false, function type -> lambda, type -> type former).",
+            "Trusted: reference type checker; states beyond the 25th and programs beyond the step horizon are only checked at their final value.",
+            "DESIGN.md 6/C04"),
+    "C05": ("exploration",
+            "type-directed exhaustive enumeration of fully annotated well-typed programs, cross-examined by the reference checker, against the real front end",
+            "Every program produced by type-directed enumeration up to 6/7 nodes (8 goal types; groups of one and two definitions with recursion, mutual recursion and type aliases in both directions; computed annotations; polymorphic identity), the alias family with groups of up to 2/3 aliases in every order, and every closed annotated term up to 6/7 nodes that the reference accepts must be accepted by the real front end with a type convertible to the expected one; the elaborated term must equal the source term with holes filled (lock-step skeleton comparison). An abnormal ending on such a program is a violation.",
+            "Trusted: reference type checker, which also cross-examines the generator on every program. Rejections by the definition-order check alone are counted, not judged.",
+            "DESIGN.md 6/C05"),
+    "C06": ("model_checking",
+            "explicit-state exploration of the real evaluator with the real unifier/normaliser queried in every state, plus exhaustive term pairs against reference conversion",
+            "For every terminating ground-typed program of the space: normalize_weak_head of the elaborated term must equal the value reached by step*; in each of the first 30 states unify(s,s), unify(s0,s), unify(s_prev,s) must hold and leave the context untouched; the operand sweep is repeated through the normaliser; and for all ordered pairs of the 260/800 smallest closed hole-free terms of each of 8 types unify(a,b) = unify(b,a) = reference conversion.",
+            "Trusted: reference conversion (NbE with fuel; pairs that exhaust it are skipped).",
+            "DESIGN.md 6/C06"),
     "C13": ("model_checking",
             "stateless choice-tree exploration of hash-set iteration order through a hook, plus a repeat-run differential on the real binary",
             "The only iteration over a hash container that reaches an output (parser::check_definition) is turned into a choice point by hook H1; a stateless DFS explorer replays permutation prefixes and enumerates every permutation at every choice point for every member of the definition-order family (all groups of up to 3/4 definitions, each a literal, a lambda or a non-value expression mentioning any subset of the group; top level and nested in a called function). All leaves of a program's choice tree must be byte-identical results. The ownership of the nondeterminism is cross-checked by launching the real binary (hooks off, fresh hash seed per process) 6/24 times per file on the examples and on multi-diagnostic programs, for both `check` and `run`.",
